@@ -99,6 +99,7 @@ fn main() {
       "C18" => Some(server::json::run(&ctx)),
       "C19" => Some(server::content::run(&ctx)),
       "C22" => Some(wallet::run_c22(&ctx)),
+      "C24" => Some(wallet::run_c24(&ctx)),
       "C23" => Some(wallet::run_c23(&ctx)),
       "C20" => Some(wallet::builder::run(&ctx)),
       "C16" => Some(chain::nofail::run(&ctx)),
